@@ -80,8 +80,16 @@ def rule_mergeguard(ctx, classes=SKETCH_CLASSES):
             return [x] if x else None
 
         # ---- guard-set (soundness): the kernel is reached only when every required parameter compared equal
-        ctx.ob("guard-first", m, site, "kernel call in %s" % m.qualname, "merge() reaches its merge kernel", bool(kcalls),
-               "" if kcalls else "no kernel call")
+        if not kcalls:
+            # calls the model cannot resolve (a kernel reached through a value: a field of a local, a parameter): not decided
+            unres = [e for e in w.events if e.kind == "call" and e.callee is None and isinstance(e.node, ast.Call)
+                     and isinstance(e.node.func, ast.Attribute) and isinstance(e.node.func.value, ast.Name) and e.node.func.value.id not in ("self", other, "np")]
+            ctx.ob("guard-first", m, site, "kernel call in %s" % m.qualname, "merge() reaches its merge kernel", None if unres else False,
+                   "merge() calls `%s`, which the analysis cannot resolve to a kernel" % unparse(unres[0].node.func, 40) if unres else "no kernel call")
+            if unres:
+                continue
+        else:
+            ctx.ob("guard-first", m, site, "kernel call in %s" % m.qualname, "merge() reaches its merge kernel", True)
         for a in req:
             res = []
             for k in kcalls:
@@ -161,8 +169,12 @@ def rule_mergeguard(ctx, classes=SKETCH_CLASSES):
             for d in ds:
                 sc = scalar_ctor(d.value)
                 if not (sc and isinstance(sc[1], ast.Name) and sc[1].id == a):
-                    okk = False
-                    why = "self.%s = %s is not a NumPy scalar built from the parameter `%s`" % (a, unparse(d.value, 50), a)
+                    v_ = d.value
+                    unknown_conv = isinstance(v_, ast.Call) and len(v_.args) == 1 and isinstance(v_.args[0], ast.Name) and v_.args[0].id == a \
+                        and not v_.keywords and sc is None
+                    okk = None if (unknown_conv and okk is not False) else False
+                    why = ("self.%s = %s: the conversion is a callable the analysis cannot name" % (a, unparse(d.value, 50)) if unknown_conv else
+                           "self.%s = %s is not a NumPy scalar built from the parameter `%s`" % (a, unparse(d.value, 50), a))
             ctx.ob("ctor-attr", F.ctor(cls), ds[0].stmt if ds else F.ctor(cls).node, "self.%s = np.T(%s)" % (a, a),
                    "compared attribute is the constructor parameter as a NumPy scalar (value comparison)", okk, "" if okk else why)
 
@@ -369,6 +381,15 @@ def rule_persist(ctx, classes=SKETCH_CLASSES):
                 if i is None and isinstance(a, ast.Name):
                     i = envidx.get(a.id)
                 fed.append(i)
+            # parameters given by keyword: `Cls(width=saved[0], depth=saved[1], ...)` feeds position cparams.index(name)
+            bykw = {}
+            for k_ in cc.keywords:
+                if k_.arg in cparams:
+                    i = _args_index(k_.value, li)
+                    if i is None and isinstance(k_.value, ast.Name):
+                        i = envidx.get(k_.value.id)
+                    bykw[k_.arg] = i
+            fed = fed + [bykw.get(p_) for p_ in cparams[len(fed):]] if bykw else fed
             okf = fed == list(range(len(cparams)))
         ctx.ob("ctor-args", load, cc, unparse(cc, 90), "the loader feeds the saved parameters back in constructor order", bool(okf),
                "" if okf else "positions fed: %s" % fed)
@@ -383,9 +404,15 @@ def rule_persist(ctx, classes=SKETCH_CLASSES):
         for p in cparams:
             ds = defs.get(p, [])
             okk = bool(ds) and all(_from_param(d.value, p) for d in ds)
+            if not okk and ds and all(isinstance(d.value, ast.Call) and len(d.value.args) == 1 and isinstance(d.value.args[0], ast.Name)
+                                      and d.value.args[0].id == p and not d.value.keywords and scalar_ctor(d.value) is None for d in ds):
+                # <something>(p) where <something> is not a NumPy scalar type the analysis can name (a type passed in as a value):
+                # the attribute is built from the parameter alone, with what conversion is not known
+                okk = None
             ctx.ob("ctor-args", ctor, ds[0].stmt if ds else ctor.node, "self.%s <- %s" % (p, p),
                    "the saved attribute holds the constructor parameter of the same name", okk,
-                   "" if okk else "self.%s is not derived from parameter %s alone" % (p, p))
+                   "" if okk else ("self.%s is built from %s by a callable the analysis cannot name" % (p, p) if okk is None else
+                                   "self.%s is not derived from parameter %s alone" % (p, p)))
         # ---- lossless-args
         atys = F.attr_types(cls)
         if dt is None:
@@ -394,6 +421,11 @@ def rule_persist(ctx, classes=SKETCH_CLASSES):
             if all(t is not None and t.kind == "uint" for t in kinds):
                 dt = Ty("uint", max(t.bits for t in kinds))
         UNBOUNDED = {"seed", "max_count"}
+        if dt is None:
+            # neither an explicit dtype nor attribute types the analysis can name: not decided (never a violation by default)
+            ctx.ob("lossless-args", save, av, "dtype of the saved args array", "the element type of the saved argument array is known", None,
+                   "no explicit dtype and the types of %s are not all known" % saved)
+            saved = []
         for s in saved:
             if s in UNBOUNDED:
                 okk = dt is not None and dt.kind == "uint" and dt.bits == 64
@@ -454,6 +486,10 @@ def rule_dispatch(ctx):
     for cls in F.classes(COUNTMIN):
         cc = F.class_ceiling(cls)
         bits = cc[0].bits if cc else None
+        if bits is None:
+            ctx.ob("dispatch", F.ctor(cls), F.ctor(cls).node, "%s: counter type" % cls.name, "the counter type of the class is known", None,
+                   "the constructor does not name the table's dtype in a form the analysis reads")
+            continue
         ent = table.get(bits)
         okk = ent is not None and ent[0] == cls.name
         ctx.ob("dispatch", ld, ent[2] if ent else ld.node, "uint%s -> %s.load" % (bits, ent[0] if ent else "?"),
@@ -816,6 +852,335 @@ class LayoutEval:
         return segs, size
 
 
+class LIUndecided(Exception):
+    pass
+
+
+class LayoutInterp:
+    """Symbolic run of a constructor (with shared_memory taken to be true) or of attach_existing_shm: sizes and offsets are
+    polynomials in the shape parameters, lists / tuples / dicts / slice objects / plain helper functions are interpreted, and every
+    `self.<attr> = np.frombuffer(<block>.buf[a:b], dtype)[.reshape(...)]` is recorded as a segment.  Used when the straight-line
+    evaluator (LayoutEval) meets offsets it cannot read (a helper that returns cumulative sums, a table of (name, size) pairs, slice
+    objects kept in a dict, a running offset variable)."""
+
+    UNK = ("unk",)
+
+    def __init__(self, F, cls, inmem, truths=None):
+        self.F, self.cls, self.inmem = F, cls, inmem
+        self.truths = dict(truths or {})      # parameter name -> bool (shared_memory=True for the constructor)
+        self.segs = []
+        self.size = None
+        self.steps = 0
+
+    # ---- values
+    @staticmethod
+    def is_poly(v):
+        return isinstance(v, Poly)
+
+    def ev(self, n, env):
+        self.steps += 1
+        if self.steps > 20000:
+            raise LIUndecided("too many steps")
+        if n is None:
+            return None
+        if isinstance(n, ast.Constant):
+            if isinstance(n.value, bool) or n.value is None or isinstance(n.value, str):
+                return n.value
+            if isinstance(n.value, int):
+                return Poly.const(n.value)
+            return self.UNK
+        if isinstance(n, ast.Name):
+            if n.id in env:
+                return env[n.id]
+            if n.id in self.truths:
+                return self.truths[n.id]
+            return Poly.sym(n.id) if n.id.isidentifier() and n.id not in ("np", "numpy") else self.UNK
+        if isinstance(n, (ast.Tuple, ast.List)):
+            vals = [self.ev(e, env) for e in n.elts]
+            return tuple(vals) if isinstance(n, ast.Tuple) else list(vals)
+        if isinstance(n, ast.Dict):
+            out = {}
+            for k, v in zip(n.keys, n.values):
+                kk = self.ev(k, env)
+                if not isinstance(kk, str):
+                    return self.UNK
+                out[kk] = self.ev(v, env)
+            return out
+        if isinstance(n, ast.Attribute):
+            a = self_attr(n)
+            if a:
+                if ("@" + a) in env:
+                    return env["@" + a]
+                return Poly.sym(a)              # self.width == width (rule ctor-attr)
+            base = self.ev(n.value, env)
+            if n.attr == "buf" and isinstance(base, tuple) and base and base[0] == "shm":
+                return ("buf", base[1] + ".buf")
+            if n.attr == "nbytes":
+                b = self_attr(n.value)
+                if b and b in self.inmem:
+                    dt, dims = self.inmem[b]
+                    p = Poly.const(ITEMSIZE[dt.bits])
+                    for d in dims:
+                        p = p * d
+                    return p
+            if n.attr == "dtype":
+                b = self_attr(n.value)
+                if b and b in self.inmem:
+                    return ("dtype", self.inmem[b][0])
+            from .facts import _dtype
+            dt = _dtype(n)
+            if dt is not None:
+                return ("dtype", dt)
+            return self.UNK
+        if isinstance(n, ast.BinOp):
+            l, r = self.ev(n.left, env), self.ev(n.right, env)
+            if isinstance(l, Poly) and isinstance(r, Poly):
+                if isinstance(n.op, ast.Add):
+                    return l + r
+                if isinstance(n.op, ast.Sub):
+                    return l - r
+                if isinstance(n.op, ast.Mult):
+                    return l * r
+            if isinstance(n.op, ast.Add) and isinstance(l, (list, tuple)) and type(l) is type(r):
+                return l + r
+            # X & ~(2^k - 1): X rounded down to a multiple of 2^k
+            if isinstance(n.op, ast.BitAnd) and isinstance(l, Poly) and isinstance(n.right, ast.UnaryOp) and isinstance(n.right.op, ast.Invert) \
+                    and isinstance(n.right.operand, ast.Constant) and isinstance(n.right.operand.value, int):
+                return Poly.sym("(rounddown %r to %d)" % (l, n.right.operand.value + 1))
+            if isinstance(l, Poly) and isinstance(r, Poly) and isinstance(n.op, (ast.Mod, ast.FloorDiv)):
+                # rounding / padding arithmetic: constants are folded, anything else is an opaque atom named by its operands, so that
+                # the same expression on both sides compares equal and different ones do not
+                lc, rc = (not any(k for k in l.d if k)), (not any(k for k in r.d if k))
+                if lc and rc and r.d.get((), 0) != 0:
+                    a_, b_ = l.d.get((), 0), r.d.get((), 0)
+                    return Poly.const(a_ % b_ if isinstance(n.op, ast.Mod) else a_ // b_)
+                return Poly.sym("(%r %s %r)" % (l, "%" if isinstance(n.op, ast.Mod) else "//", r))
+            return self.UNK
+        if isinstance(n, ast.UnaryOp):
+            v = self.ev(n.operand, env)
+            if isinstance(n.op, ast.Not) and isinstance(v, bool):
+                return not v
+            if isinstance(n.op, ast.USub) and isinstance(v, Poly):
+                return Poly.const(0) - v
+            return self.UNK
+        if isinstance(n, ast.Subscript):
+            base = self.ev(n.value, env)
+            if isinstance(n.slice, ast.Slice):
+                lo = self.ev(n.slice.lower, env) if n.slice.lower is not None else None
+                hi = self.ev(n.slice.upper, env) if n.slice.upper is not None else None
+                if isinstance(base, tuple) and base and base[0] == "buf":
+                    if (lo is not None and not isinstance(lo, Poly)) or (hi is not None and not isinstance(hi, Poly)):
+                        raise LIUndecided("slice bound `%s`" % unparse(n.slice, 40))
+                    return ("bufslice", base[1], lo if lo is not None else Poly.const(0), hi)
+                if isinstance(base, (list, tuple)) and n.slice.step is None:
+                    def _ci(v):
+                        if v is None:
+                            return None
+                        if isinstance(v, Poly) and not any(k for k in v.d if k):
+                            return v.d.get((), 0)
+                        raise LIUndecided("list slice bound")
+                    return base[_ci(lo):_ci(hi)]
+                return self.UNK
+            i = self.ev(n.slice, env)
+            if isinstance(base, tuple) and base and base[0] == "buf" and isinstance(i, tuple) and i and i[0] == "slice":
+                return ("bufslice", base[1], i[1] if i[1] is not None else Poly.const(0), i[2])
+            if isinstance(base, dict) and isinstance(i, str) and i in base:
+                return base[i]
+            if isinstance(base, (list, tuple)) and isinstance(i, Poly) and not any(k for k in i.d if k):
+                k = i.d.get((), 0)
+                if -len(base) <= k < len(base):
+                    return base[k]
+            return self.UNK
+        if isinstance(n, ast.Compare) and len(n.ops) == 1:
+            l, r = self.ev(n.left, env), self.ev(n.comparators[0], env)
+            if isinstance(l, Poly) and isinstance(r, Poly) and not any(k for k in (l - r).d if k):
+                d = (l - r).d.get((), 0)
+                return {ast.Eq: d == 0, ast.NotEq: d != 0, ast.Lt: d < 0, ast.LtE: d <= 0, ast.Gt: d > 0, ast.GtE: d >= 0}.get(type(n.ops[0]), self.UNK)
+            if isinstance(n.ops[0], (ast.Is, ast.IsNot)) and r is None and (l is None or isinstance(l, (Poly, bool, str, list, tuple, dict))):
+                return (l is None) == isinstance(n.ops[0], ast.Is)
+            return self.UNK
+        if isinstance(n, ast.Call):
+            return self.call(n, env)
+        if isinstance(n, (ast.GeneratorExp, ast.ListComp)) and len(n.generators) == 1 and not n.generators[0].ifs:
+            g = n.generators[0]
+            it = self.ev(g.iter, env)
+            if not isinstance(it, (list, tuple)):
+                return self.UNK
+            out = []
+            for x in it:
+                e2 = dict(env)
+                self.bind(g.target, x, e2)
+                out.append(self.ev(n.elt, e2))
+            return out
+        return self.UNK
+
+    def bind(self, t, v, env):
+        if isinstance(t, ast.Name):
+            if v == ("shm", "?opened"):
+                v = ("shm", t.id)            # a block opened by name and kept in this local
+            env[t.id] = v
+        elif isinstance(t, (ast.Tuple, ast.List)) and isinstance(v, (tuple, list)) and len(v) == len(t.elts):
+            for x, y in zip(t.elts, v):
+                self.bind(x, y, env)
+        else:
+            raise LIUndecided("binding `%s`" % unparse(t, 40))
+
+    def call(self, c, env):
+        d = dotted(c.func) or ""
+        args = [self.ev(a, env) for a in c.args if not isinstance(a, ast.Starred)]
+        kw = {k.arg: self.ev(k.value, env) for k in c.keywords if k.arg}
+        if d in ("int", "np.uint64", "np.int64", "numpy.uint64", "np.uint32") and len(args) == 1:
+            return args[0] if isinstance(args[0], Poly) else self.UNK
+        if d == "sum" and len(args) == 1 and isinstance(args[0], (list, tuple)) and all(isinstance(x, Poly) for x in args[0]):
+            tot = Poly.const(0)
+            for x in args[0]:
+                tot = tot + x
+            return tot
+        if d == "len" and len(args) == 1 and isinstance(args[0], (list, tuple, dict)):
+            return Poly.const(len(args[0]))
+        if d == "range" and args and all(isinstance(a, Poly) and not any(k for k in a.d if k) for a in args):
+            return [Poly.const(i) for i in range(*[a.d.get((), 0) for a in args])]
+        if d == "slice" and 1 <= len(args) <= 2:
+            lo, hi = (None, args[0]) if len(args) == 1 else args
+            return ("slice", lo, hi)
+        if d in ("tuple", "list") and len(args) == 1 and isinstance(args[0], (list, tuple)):
+            return tuple(args[0]) if d == "tuple" else list(args[0])
+        if d == "dict" and not args:
+            return dict(kw)
+        if d.split(".")[-1] == "SharedMemory":
+            if "size" in kw:
+                if self.size is None:
+                    self.size = kw["size"] if isinstance(kw["size"], Poly) else "?"
+                return ("shm", "self.shm")
+            return ("shm", "?opened")
+        if d in ("np.frombuffer", "numpy.frombuffer") and args:
+            b = args[0]
+            dt = args[1] if len(args) > 1 else kw.get("dtype")
+            dty = dt[1] if isinstance(dt, tuple) and dt and dt[0] == "dtype" else None
+            if isinstance(b, tuple) and b and b[0] == "buf":
+                b = ("bufslice", b[1], Poly.const(0), None)
+            if isinstance(b, tuple) and b and b[0] == "bufslice":
+                return ("arr", b[1], b[2], b[3], dty, None)
+            raise LIUndecided("np.frombuffer of `%s`" % unparse(c.args[0], 40))
+        if isinstance(c.func, ast.Attribute):
+            recv = self.ev(c.func.value, env)
+            m = c.func.attr
+            if m == "reshape" and isinstance(recv, tuple) and recv and recv[0] == "arr":
+                dims = list(args[0]) if len(args) == 1 and isinstance(args[0], (tuple, list)) else args
+                return recv[:5] + (list(dims),)
+            if m == "append" and isinstance(recv, list) and len(args) == 1:
+                recv.append(args[0])
+                return None
+            if m == "items" and isinstance(recv, dict):
+                return [(k, v) for k, v in recv.items()]
+            if m in ("keys", "values") and isinstance(recv, dict):
+                return list(recv.keys() if m == "keys" else recv.values())
+        # a plain Python helper of the module
+        if isinstance(c.func, ast.Name):
+            callee = self.F.model.lookup_func(self.cls.module, c.func.id)
+            if callee is not None and not callee.is_kernel and len(callee.params) == len(args) and not c.keywords:
+                e2 = dict(zip(callee.params, args))
+                r = self.block(callee.body(), e2)
+                return r[1] if r is not None and r[0] == "ret" else None
+        return self.UNK
+
+    # ---- statements
+    def block(self, stmts, env):
+        for s in stmts:
+            r = self.stmt(s, env)
+            if r is not None:
+                return r
+        return None
+
+    def stmt(self, s, env):
+        if isinstance(s, ast.Expr):
+            if not isinstance(s.value, ast.Constant):
+                self.ev(s.value, env)
+            return None
+        if isinstance(s, (ast.Pass, ast.Assert, ast.Delete, ast.Raise, ast.Import, ast.ImportFrom)):
+            return None
+        if isinstance(s, ast.Assign) and len(s.targets) == 1:
+            v = self.ev(s.value, env)
+            t = s.targets[0]
+            a = self_attr(t)
+            if a:
+                if isinstance(v, tuple) and v and v[0] == "arr":
+                    self.segs.append({"attr": a, "dtype": v[4], "start": v[2], "end": v[3], "dims": v[5], "owner": v[1], "node": s})
+                elif isinstance(v, tuple) and v and v[0] == "shm":
+                    env["@" + a] = v
+                elif isinstance(v, Poly) and a in ("shm",):
+                    env["@" + a] = v
+                return None
+            if isinstance(t, ast.Subscript):
+                base = self.ev(t.value, env)
+                i = self.ev(t.slice, env)
+                if isinstance(base, dict) and isinstance(i, str):
+                    base[i] = v
+                    return None
+                if isinstance(base, list) and isinstance(i, Poly) and not any(k for k in i.d if k):
+                    base[i.d.get((), 0)] = v
+                    return None
+                return None
+            self.bind(t, v, env)
+            return None
+        if isinstance(s, ast.AnnAssign) and s.value is not None and isinstance(s.target, ast.Name):
+            env[s.target.id] = self.ev(s.value, env)
+            return None
+        if isinstance(s, ast.AugAssign) and isinstance(s.target, ast.Name):
+            cur = env.get(s.target.id, Poly.sym(s.target.id))
+            v = self.ev(s.value, env)
+            if isinstance(cur, Poly) and isinstance(v, Poly) and isinstance(s.op, (ast.Add, ast.Sub, ast.Mult)):
+                env[s.target.id] = cur + v if isinstance(s.op, ast.Add) else cur - v if isinstance(s.op, ast.Sub) else cur * v
+            else:
+                env[s.target.id] = self.UNK
+            return None
+        if isinstance(s, ast.AugAssign):
+            return None
+        if isinstance(s, ast.If):
+            t = self.ev(s.test, env)
+            if isinstance(t, bool):
+                return self.block(s.body if t else s.orelse, env)
+            # a validation check (raises only) or a branch that places no segment: skipped; anything else is not understood
+            def places(stmts):
+                return any(isinstance(x, ast.Call) and (dotted(x.func) or "").endswith("frombuffer") for b in stmts for x in ast.walk(b))
+            if not places(s.body) and not places(s.orelse):
+                return None
+            raise LIUndecided("branch on `%s`" % unparse(s.test, 50))
+        if isinstance(s, ast.For):
+            it = self.ev(s.iter, env)
+            if not isinstance(it, (list, tuple)):
+                if not any(isinstance(x, ast.Call) and (dotted(x.func) or "").endswith("frombuffer") for x in ast.walk(s)):
+                    return None
+                raise LIUndecided("loop over `%s`" % unparse(s.iter, 40))
+            for x in list(it):
+                self.bind(s.target, x, env)
+                r = self.block(s.body, env)
+                if r is not None:
+                    if r[0] == "break":
+                        break
+                    if r[0] == "continue":
+                        continue
+                    return r
+            return None
+        if isinstance(s, ast.Return):
+            return ("ret", self.ev(s.value, env) if s.value is not None else None)
+        if isinstance(s, ast.Break):
+            return ("break",)
+        if isinstance(s, ast.Continue):
+            return ("continue",)
+        if isinstance(s, (ast.With, ast.Try)):
+            r = self.block(s.body, env)
+            return r
+        if isinstance(s, ast.While):
+            raise LIUndecided("while loop")
+        return None
+
+    def run(self, func):
+        env = {}
+        self.block(func.body(), env)
+        return self.segs, self.size
+
+
 def _branches(ctor, name="shared_memory"):
     """(if-node, shared-branch statements, in-memory-branch statements) of the constructor's placement decision."""
     for s in ctor.body():
@@ -874,6 +1239,33 @@ def rule_layout(ctx, classes=SKETCH_CLASSES):
             raise AnalysisError("%s has no attach_existing_shm" % cls.key)
         la = LayoutEval(F, cls, inmem)
         asegs, _ = la.run(att.body(), ())
+        # offsets the straight-line evaluator could not read (local names left as symbols, missing segments): interpret the two
+        # functions symbolically instead
+        shape_syms = set(ctor.params) | {d_.attr for d_ in F.attr_defs(cls)}
+
+        def _readable(segs, size_needed, size):
+            if not segs:
+                return False
+            for sg in segs:
+                for v in (sg["start"], sg["end"]):
+                    if v is None:
+                        continue
+                    if not isinstance(v, Poly) or any(sym not in shape_syms and not sym.startswith("(") for k in v.d for sym in k):
+                        return False
+            if size_needed and (not isinstance(size, Poly) or any(sym not in shape_syms and not sym.startswith("(") for k in size.d for sym in k)):
+                return False
+            return True
+        if not (_readable(csegs, True, csize) and _readable(asegs, False, None)):
+            try:
+                li_c = LayoutInterp(F, cls, inmem, {"shared_memory": True})
+                c2, s2 = li_c.run(ctor)
+                li_a = LayoutInterp(F, cls, inmem, {})
+                a2, _ = li_a.run(att)
+                if _readable(c2, True, s2) and _readable(a2, False, None):
+                    csegs, csize, asegs = c2, s2, a2
+            except LIUndecided as u:
+                ctx.ob("layout", ctor, ctor.node, "%s: shared-memory layout" % cls.name, "the offsets of the block's segments are computable", None, str(u))
+                continue
         cons = "%s.__init__ vs %s" % (cls.name, att.qualname)
         # same attributes in the same order
         ca, aa = [s["attr"] for s in csegs], [s["attr"] for s in asegs]
@@ -891,8 +1283,23 @@ def rule_layout(ctx, classes=SKETCH_CLASSES):
             for side, sg, fn in (("creator", c, ctor), ("attacher", a, att)):
                 st = sg["start"]
                 okk = isinstance(st, Poly) and st == prev_end
+                why_ = ""
+                if not okk and isinstance(st, Poly) and any(sym.startswith("(") for k in st.d for sym in k) and c["start"] == a["start"]:
+                    # a start computed with rounding arithmetic, identically on both sides: fine when it is the previous end plus
+                    # non-negative padding (`x % c` terms); a start rounded DOWN from the previous end overlaps the previous segment
+                    gap = st - prev_end
+                    pads = all(len(k) == 1 and k[0].startswith("(") and " % " in k[0] and v > 0 for k, v in gap.d.items())
+                    down = any(len(k) == 1 and k[0].startswith("(rounddown") and v > 0 for k, v in gap.d.items()) or \
+                        any(len(k) >= 1 and any(" // " in sym for sym in k) for k in gap.d)
+                    if pads:
+                        okk = True
+                    elif down:
+                        why_ = "%s starts `%s` at %r, rounded down from the end of the previous segment (%r): the two overlap unless that end is already a multiple" % (side, nm, st, prev_end)
+                    else:
+                        okk = None
+                        why_ = "gap %r between the previous segment and `%s` is not decided" % (gap, nm)
                 ctx.ob("layout", fn, sg["node"], "%s %s.%s start" % (side, cls.name, nm), "segment starts where the previous one ends (offset %r)" % prev_end,
-                       okk, "" if okk else "%s starts `%s` at %r" % (side, nm, st))
+                       okk, "" if okk else (why_ or "%s starts `%s` at %r" % (side, nm, st)))
             last = i == len(csegs) - 1
             ce, ae = c["end"], a["end"]
             if last:
@@ -926,7 +1333,8 @@ def rule_layout(ctx, classes=SKETCH_CLASSES):
         # requested size
         last = csegs[-1]
         if last["attr"] == "n_added_records":
-            want = total + Poly.const(16)
+            # the two uint64 counters follow the last table (directly, or after padding both sides agree on)
+            want = (last["start"] + Poly.const(16)) if isinstance(last["start"], Poly) else total + Poly.const(16)
         else:
             # single whole-buffer segment (HLL): m bytes of uint8
             dt, dims = inmem.get(last["attr"], (None, None))
